@@ -1,6 +1,796 @@
-//! C10 rig (see DESIGN.md section 3/C10) - filled in by the C10 check.
-use crate::util::Args;
+//! C10 part 1 — long-poll listeners on a stand-alone `ConfigActor` (DESIGN.md section 3/C10).
+//!
+//! `vh c10 --seed S --shard i --shards n --out f [--bases N] [--sampled N] [--timed N] [--only-base <seed>] [--verbose]`
+//!
+//! The harness is the long-polling client: it sends `ConfigCmd::LISTENER(items, oneshot sender, deadline_millis)` and
+//! keeps the receivers. A schedule is an explicit MESSAGE ORDER (the actor is single threaded, every send is awaited,
+//! so the order of sends is the interleaving). For small scenarios (<= 3 listeners, <= 3 keys, <= 4 changes) every
+//! permutation of {listen_i, change_j} is executed; larger ones are sampled. A second family runs on real time with
+//! short deadlines so that the actor's own 500 ms time-out tick decides.
+//!
+//! Oracle (over the recorded history, written from the property): for a listener L registered at step r and a key k
+//! in L held with md5 m:
+//!   * md5 served at r differs from m                       -> answered at r with k in the answer;
+//!   * else the first later publish that changes the content (served or applied) / remove of an existing key, of any
+//!     key of L, processed at step e before L's deadline    -> L answered no later than e, and if it is answered at e
+//!     the answer names the key changed at e;
+//!   * else                                                  -> answered in [deadline, deadline + 500 ms tick + slack].
+//! Spurious answers are allowed. Temporary values and full-value imports are not publishes: a listener left stale by
+//! them is counted as a diagnostic, not as a violation.
+use crate::util::{now_ms, rng, Args, Report};
+use actix::prelude::*;
+use rand::rngs::StdRng;
+use rand::seq::SliceRandom;
+use rand::Rng;
+use rnacos::config::core::{ConfigActor, ConfigCmd, ConfigKey, ConfigResult, ListenerItem, ListenerResult};
+use rnacos::config::model::{ConfigHistoryItemDO, ConfigRaftCmd, ConfigValueDO};
+use serde_json::{json, Value};
+use std::collections::BTreeSet;
+use std::sync::Arc;
+use tokio::sync::oneshot::{error::TryRecvError, Receiver};
 
-pub fn run(_args: &Args) -> anyhow::Result<()> {
-    anyhow::bail!("not implemented")
+const TICK_MS: i64 = 500;
+const SLACK_MS: i64 = 400;
+
+fn md5_hex(s: &str) -> String {
+    format!("{:x}", md5::compute(s.as_bytes()))
+}
+
+#[derive(Clone, Copy, Debug, PartialEq, Eq, PartialOrd, Ord)]
+pub enum Held {
+    /// the md5 the server serves for the key at the moment the listener is sent ("" for an absent key)
+    Current,
+    /// md5 of a content the key never had
+    Stale,
+    Empty,
+    /// md5 of the key's initial content: current while untouched, "md5 of a removed key" after a remove, stale after a publish
+    OfInitial,
+}
+
+#[derive(Clone, Copy, Debug, PartialEq, Eq, PartialOrd, Ord)]
+pub enum Change {
+    PubNew,
+    PubSame,
+    Remove,
+    Tmp,
+    ImportNew,
+    ImportSame,
+}
+
+impl Change {
+    fn name(&self) -> &'static str {
+        match self {
+            Change::PubNew => "publish-new",
+            Change::PubSame => "publish-same",
+            Change::Remove => "remove",
+            Change::Tmp => "tmp-value",
+            Change::ImportNew => "import-new",
+            Change::ImportSame => "import-same",
+        }
+    }
+}
+
+#[derive(Clone, Debug)]
+pub enum Ev {
+    /// listener: (key index, held kind) per item; deadline in ms from the moment of sending (0 = none given, > 10_000 = "long")
+    Listen { id: usize, items: Vec<(usize, Held)>, timeout_ms: i64 },
+    Change { kind: Change, key: usize },
+}
+
+impl Ev {
+    fn to_json(&self) -> Value {
+        match self {
+            Ev::Listen { id, items, timeout_ms } if *timeout_ms == -1 => json!({"subscribe (ConfigCmd::Subscribe)": id, "items": items.iter().map(|(k, h)| json!([format!("k{}", k), format!("{:?}", h)])).collect::<Vec<_>>()}),
+            Ev::Listen { id, items, timeout_ms } => json!({"listen": id, "items": items.iter().map(|(k, h)| json!([format!("k{}", k), format!("{:?}", h)])).collect::<Vec<_>>(), "timeout_ms": timeout_ms}),
+            Ev::Change { kind, key } => json!({"change": kind.name(), "key": format!("k{}", key)}),
+        }
+    }
+}
+
+#[derive(Clone, Debug)]
+pub struct Base {
+    /// initial state per key: true = present with content "c0-<k>"
+    init: Vec<bool>,
+    events: Vec<Ev>,
+}
+
+// ------------------------------------------------------------------------------------------------ model of what is served
+#[derive(Clone, Default)]
+struct KState {
+    applied: Option<String>,
+    tmp: Option<String>,
+}
+
+impl KState {
+    fn served(&self) -> Option<&String> {
+        self.tmp.as_ref().or(self.applied.as_ref())
+    }
+    fn served_md5(&self) -> String {
+        self.served().map(|c| md5_hex(c)).unwrap_or_default()
+    }
+}
+
+struct LState {
+    id: usize,
+    items: Vec<(usize, String, Held)>,
+    reg_step: usize,
+    deadline: i64,
+    rx: Option<Receiver<ListenerResult>>,
+    /// (step, time, Some(keys) = DATA / None = NULL)
+    answer: Option<(usize, i64, Option<Vec<usize>>)>,
+    dropped: bool,
+    /// keys whose held md5 differed from the served one at registration
+    imm: Vec<usize>,
+    /// state of each differing key at registration ("key-absent" / "key-stored" / "key-with-tmp-value")
+    imm_state: Vec<(usize, &'static str)>,
+    /// first qualifying change after registration: (step, key, kind, previous event kind on that key, time)
+    first_change: Option<(usize, usize, &'static str, &'static str, i64)>,
+    pre_events: BTreeSet<&'static str>,
+}
+
+/// a ConfigCmd::Subscribe (what a gRPC ConfigBatchListenRequest becomes): only its immediate answer is observable in-process
+struct SubRec {
+    id: usize,
+    step: usize,
+    items: Vec<(usize, String, Held)>,
+    imm: Vec<usize>,
+    imm_state: Vec<(usize, &'static str)>,
+    got: Vec<usize>,
+}
+
+pub struct Sess {
+    subs: Vec<SubRec>,
+    cfg: Addr<ConfigActor>,
+    uniq: String,
+    keys: Vec<KState>,
+    last_ev: Vec<&'static str>,
+    ls: Vec<LState>,
+    step: usize,
+    fresh: u64,
+    hist_id: u64,
+    trace: Vec<Value>,
+}
+
+impl Sess {
+    pub fn new(cfg: Addr<ConfigActor>, uniq: String, nkeys: usize) -> Self {
+        Self { subs: vec![], cfg, uniq, keys: vec![KState::default(); nkeys], last_ev: vec!["none"; nkeys], ls: vec![], step: 0, fresh: 0, hist_id: 0, trace: vec![] }
+    }
+    fn ckey(&self, k: usize) -> ConfigKey {
+        // three tenants/groups so that key equality really involves all parts
+        let tenant = ["", "dev", "t-2"][k % 3];
+        ConfigKey::new(&format!("d{}-{}", k, self.uniq), if k == 1 { "grp" } else { "DEFAULT_GROUP" }, tenant)
+    }
+    fn key_index(&self, ck: &ConfigKey) -> usize {
+        let s = ck.build_key();
+        s.split('\x02').next().and_then(|d| d.strip_suffix(&format!("-{}", self.uniq))).and_then(|d| d.strip_prefix('d')).and_then(|d| d.parse::<usize>().ok()).unwrap_or(usize::MAX)
+    }
+    fn raft_key(&self, k: usize) -> String {
+        let ck = self.ckey(k);
+        ck.build_key()
+    }
+    async fn publish(&mut self, k: usize, content: &str) -> anyhow::Result<()> {
+        self.hist_id += 1;
+        self.cfg.send(ConfigRaftCmd::ConfigAdd { key: self.raft_key(k), value: Arc::new(content.to_string()), config_type: None, desc: None, history_id: self.hist_id, history_table_id: None, op_time: now_ms() as i64, op_user: None }).await??;
+        Ok(())
+    }
+    async fn init_key(&mut self, k: usize) -> anyhow::Result<()> {
+        let c = format!("c0-{}", k);
+        self.publish(k, &c).await?;
+        self.keys[k].applied = Some(c);
+        Ok(())
+    }
+
+    /// poll every outstanding receiver (answers are sent synchronously inside the actor's handlers)
+    fn poll(&mut self) {
+        let now = now_ms() as i64;
+        let step = self.step;
+        let uniq = self.uniq.clone();
+        for l in self.ls.iter_mut() {
+            if let Some(rx) = l.rx.as_mut() {
+                match rx.try_recv() {
+                    Ok(ListenerResult::DATA(keys)) => {
+                        let ks: Vec<usize> = keys.iter().map(|ck| {
+                            let s = ck.build_key();
+                            // recover the key index from the dataId "d<k>-<uniq>"
+                            s.split('\x02').next().and_then(|d| d.strip_suffix(&format!("-{}", uniq))).and_then(|d| d.strip_prefix('d')).and_then(|d| d.parse::<usize>().ok()).unwrap_or(usize::MAX)
+                        }).collect();
+                        l.answer = Some((step, now, Some(ks)));
+                        l.rx = None;
+                    }
+                    Ok(ListenerResult::NULL) => {
+                        l.answer = Some((step, now, None));
+                        l.rx = None;
+                    }
+                    Err(TryRecvError::Empty) => {}
+                    Err(TryRecvError::Closed) => {
+                        l.dropped = true;
+                        l.rx = None;
+                    }
+                }
+            }
+        }
+    }
+
+    pub async fn apply(&mut self, ev: &Ev) -> anyhow::Result<()> {
+        self.step += 1;
+        let step = self.step;
+        match ev {
+            Ev::Listen { id, items, timeout_ms } => {
+                let now = now_ms() as i64;
+                let deadline = if *timeout_ms <= 0 { 0 } else { now + timeout_ms };
+                let mut li = vec![];
+                let mut mine = vec![];
+                let mut imm = vec![];
+                let mut imm_state: Vec<(usize, &'static str)> = vec![];
+                for (k, h) in items {
+                    let served = self.keys[*k].served_md5();
+                    let held = match h {
+                        Held::Current => served.clone(),
+                        Held::Stale => md5_hex("never-the-content"),
+                        Held::Empty => String::new(),
+                        Held::OfInitial => md5_hex(&format!("c0-{}", k)),
+                    };
+                    if held != served {
+                        imm.push(*k);
+                        imm_state.push((*k, if self.keys[*k].served().is_none() { "key-absent" } else if self.keys[*k].tmp.is_some() { "key-with-tmp-value" } else { "key-stored" }));
+                    }
+                    li.push(ListenerItem::new(self.ckey(*k), Arc::new(held.clone())));
+                    mine.push((*k, held, *h));
+                }
+                if *timeout_ms == -1 {
+                    let got = match self.cfg.send(ConfigCmd::Subscribe(li, Arc::new(format!("client-{}-{}", self.uniq, id)))).await?? {
+                        ConfigResult::ChangeKey(keys) => keys.iter().map(|ck| self.key_index(ck)).collect(),
+                        _ => vec![],
+                    };
+                    self.trace.push(json!({"step": step, "t": now, "ev": ev.to_json(), "held": mine.iter().map(|(k, m, _)| json!([format!("k{}", k), m])).collect::<Vec<_>>(), "changed_keys_answered": got.iter().map(|k: &usize| format!("k{}", k)).collect::<Vec<_>>()}));
+                    self.subs.push(SubRec { id: *id, step, items: mine, imm, imm_state, got });
+                    self.poll();
+                    return Ok(());
+                }
+                let (tx, rx) = tokio::sync::oneshot::channel();
+                self.cfg.send(ConfigCmd::LISTENER(li, tx, deadline)).await??;
+                self.trace.push(json!({"step": step, "t": now, "ev": ev.to_json(), "held": mine.iter().map(|(k, m, _)| json!([format!("k{}", k), m])).collect::<Vec<_>>(), "deadline": deadline}));
+                self.ls.push(LState { id: *id, items: mine, reg_step: step, deadline, rx: Some(rx), answer: None, dropped: false, imm, imm_state, first_change: None, pre_events: BTreeSet::new() });
+            }
+            Ev::Change { kind, key } => {
+                let k = *key;
+                let before_served = self.keys[k].served_md5();
+                let before_applied = self.keys[k].applied.clone();
+                self.fresh += 1;
+                let fresh = format!("v{}-{}", self.fresh, k);
+                let mut qualifying = false;
+                match kind {
+                    Change::PubNew | Change::PubSame => {
+                        let content = if *kind == Change::PubSame { self.keys[k].served().cloned().unwrap_or(fresh) } else { fresh };
+                        self.publish(k, &content).await?;
+                        self.keys[k].tmp = None;
+                        self.keys[k].applied = Some(content);
+                        // a publish that changes the content: the applied one or the served one
+                        if self.keys[k].applied != before_applied || self.keys[k].served_md5() != before_served {
+                            qualifying = true;
+                        }
+                    }
+                    Change::Remove => {
+                        self.cfg.send(ConfigRaftCmd::ConfigRemove { key: self.raft_key(k) }).await??;
+                        qualifying = self.keys[k].served().is_some();
+                        self.keys[k] = KState::default();
+                    }
+                    Change::Tmp => {
+                        self.cfg.send(ConfigCmd::SetTmpValue(self.ckey(k), Arc::new(fresh.clone()))).await??;
+                        self.keys[k].tmp = Some(fresh);
+                    }
+                    Change::ImportNew | Change::ImportSame => {
+                        let content = if *kind == Change::ImportSame { self.keys[k].served().cloned().unwrap_or(fresh) } else { fresh };
+                        self.hist_id += 1;
+                        let vdo = ConfigValueDO { content: Some(content.clone()), histories: vec![ConfigHistoryItemDO { id: Some(self.hist_id), content: Some(content.clone()), last_time: Some(now_ms() as i64), op_user: None }], config_type: None, desc: None };
+                        self.cfg.send(ConfigRaftCmd::SetFullValue { key: self.ckey(k), value: vdo.into(), last_id: None }).await??;
+                        self.keys[k].tmp = None;
+                        self.keys[k].applied = Some(content);
+                    }
+                }
+                let now = now_ms() as i64;
+                let kind_name: &'static str = match (kind, qualifying) {
+                    (Change::PubNew, _) if before_served.is_empty() => "publish-creates",
+                    (Change::PubSame, true) if before_served.is_empty() => "publish-creates",
+                    (Change::PubSame, true) => "publish-over-tmp-value",
+                    (Change::Remove, false) => "remove-absent",
+                    (c, _) => c.name(),
+                };
+                let prev = self.last_ev[k];
+                for l in self.ls.iter_mut() {
+                    if l.answer.is_none() && !l.dropped && l.items.iter().any(|(x, _, _)| *x == k) {
+                        if qualifying {
+                            if l.first_change.is_none() && l.imm.is_empty() {
+                                l.first_change = Some((step, k, kind_name, prev, now));
+                            }
+                        } else if l.first_change.is_none() {
+                            l.pre_events.insert(kind_name);
+                        }
+                    }
+                }
+                self.last_ev[k] = kind_name;
+                self.trace.push(json!({"step": step, "t": now, "ev": ev.to_json(), "as": kind_name, "content_changing": qualifying, "served_md5_after": self.keys[k].served_md5()}));
+            }
+        }
+        self.poll();
+        Ok(())
+    }
+
+    /// served md5 as the actor reports it (cross-check of the harness' own bookkeeping)
+    async fn actor_md5(&self, k: usize) -> anyhow::Result<String> {
+        Ok(match self.cfg.send(ConfigCmd::GET(self.ckey(k))).await?? {
+            ConfigResult::Data { md5, .. } => md5.to_string(),
+            _ => String::new(),
+        })
+    }
+
+    async fn cleanup(&mut self) {
+        for k in 0..self.keys.len() {
+            let _ = self.cfg.send(ConfigRaftCmd::ConfigRemove { key: self.raft_key(k) }).await;
+        }
+    }
+}
+
+pub struct Verdict {
+    pub viol: Vec<(String, Value)>,
+    pub late: Vec<(String, Value)>,
+    pub shapes: Vec<String>,
+    pub diags: Vec<String>,
+}
+
+/// the oracle; `timed` = deadlines are real
+fn judge(s: &Sess, timed: bool, end_time: i64) -> Verdict {
+    let mut v = Verdict { viol: vec![], late: vec![], shapes: vec![], diags: vec![] };
+    for sr in &s.subs {
+        let kinds: Vec<String> = sr.items.iter().filter(|(k, _, _)| sr.imm.contains(k)).map(|(_, _, h)| format!("{:?}", h)).collect::<BTreeSet<String>>().into_iter().collect();
+        if let Some((_, st)) = sr.imm_state.iter().find(|(k, _)| !sr.got.contains(k)) {
+            v.viol.push((format!("subscribe/answer-lacks-a-key-whose-md5-differs/{}", st), json!({"subscriber": sr.id, "step": sr.step,
+                "items": sr.items.iter().map(|(k, m, h)| json!([format!("k{}", k), m, format!("{:?}", h)])).collect::<Vec<_>>(), "answered": sr.got.iter().map(|k| format!("k{}", k)).collect::<Vec<_>>()})));
+        } else if !sr.imm.is_empty() {
+            v.shapes.push(format!("subscribe-immediate/held-{}/k{}", kinds.join("+"), sr.items.len()));
+        } else {
+            v.shapes.push("subscribe/nothing-differs".to_string());
+        }
+    }
+    for l in &s.ls {
+        let desc = json!({"listener": l.id, "registered_at_step": l.reg_step, "items": l.items.iter().map(|(k, m, h)| json!([format!("k{}", k), m, format!("{:?}", h)])).collect::<Vec<_>>(),
+            "deadline": l.deadline, "answer": l.answer.as_ref().map(|(st, t, a)| json!({"step": st, "t": t, "result": match a { Some(ks) => json!({"DATA": ks.iter().map(|k| format!("k{}", k)).collect::<Vec<_>>()}), None => json!("NULL") }}))});
+        let nk = l.items.len();
+        if l.dropped {
+            v.viol.push(("longpoll/sender-dropped-without-answer".into(), desc.clone()));
+            continue;
+        }
+        let held_kinds: BTreeSet<String> = l.items.iter().map(|(_, _, h)| format!("{:?}", h)).collect();
+        if !l.imm.is_empty() {
+            // must be answered at registration with the differing keys
+            let kinds: Vec<String> = l.items.iter().filter(|(k, _, _)| l.imm.contains(k)).map(|(_, _, h)| format!("{:?}", h)).collect::<BTreeSet<String>>().into_iter().collect();
+            match &l.answer {
+                Some((st, _, Some(ks))) if *st == l.reg_step => {
+                    let missing: Vec<&(usize, &'static str)> = l.imm_state.iter().filter(|(k, _)| !ks.contains(k)).collect();
+                    if !missing.is_empty() {
+                        v.viol.push((format!("longpoll/immediate-answer-lacks-a-differing-key/{}", missing[0].1), desc.clone()));
+                    } else {
+                        v.shapes.push(format!("immediate/held-{}/k{}", kinds.join("+"), nk));
+                    }
+                }
+                _ => v.viol.push((format!("longpoll/no-immediate-answer-although-md5-differs/{}", l.imm_state[0].1), desc.clone())),
+            }
+            continue;
+        }
+        if l.deadline <= 0 {
+            // no time-out given: the actor answers at once with an empty change list
+            if !matches!(&l.answer, Some((st, _, _)) if *st == l.reg_step) {
+                v.viol.push(("longpoll/no-answer-for-a-listener-without-timeout".into(), desc.clone()));
+            } else {
+                v.shapes.push("no-timeout/answered-at-once".into());
+            }
+            continue;
+        }
+        let pre: Vec<&str> = l.pre_events.iter().cloned().collect();
+        let margin = 60;
+        match l.first_change {
+            Some((step, key, kind, prev, t)) if !timed || t < l.deadline - margin => {
+                let sharers = s.ls.iter().filter(|o| o.items.iter().any(|(x, _, _)| *x == key) && o.reg_step < step && o.answer.as_ref().map(|a| a.0 >= step).unwrap_or(true)).count();
+                match &l.answer {
+                    Some((st, _, a)) if *st <= step => {
+                        if *st == step {
+                            match a {
+                                Some(ks) if ks.contains(&key) => {
+                                    v.shapes.push(format!("pending-listener/keys{}/sharers{}/at-{}", nk, sharers.min(3), kind));
+                                    v.shapes.push(format!("pending-at/{}/prev-{}/sharers{}{}{}", kind, prev, sharers.min(3), if pre.is_empty() { "" } else { "/after-non-changing-events" }, if timed { "/short-deadline" } else { "" }));
+                                    for p in &pre {
+                                        v.shapes.push(format!("pending-through/{}/then-{}", p, kind));
+                                    }
+                                    for h in &held_kinds {
+                                        v.shapes.push(format!("pending-holding/{}/then-{}", h, kind));
+                                    }
+                                }
+                                _ => v.viol.push((format!("longpoll/answer-at-change-lacks-the-changed-key/{}", kind), json!({"l": desc, "change": {"step": step, "key": format!("k{}", key), "kind": kind}}))),
+                            }
+                        } else {
+                            v.shapes.push(format!("answered-spuriously-before/{}", kind));
+                        }
+                    }
+                    _ => v.viol.push((format!("longpoll/unnotified/{}{}", kind, if prev.starts_with("remove") { "/after-remove" } else { "" }), json!({"l": desc, "change": {"step": step, "key": format!("k{}", key), "kind": kind, "previous_event_on_key": prev}}))),
+                }
+            }
+            fc => {
+                if timed {
+                    // no content-changing publish/remove clearly before the deadline: answered by deadline + tick + slack
+                    let limit = l.deadline + TICK_MS + SLACK_MS;
+                    let ambiguous = fc.map(|c| (c.4 - l.deadline).abs() <= margin).unwrap_or(false);
+                    match &l.answer {
+                        Some((_, t, a)) => {
+                            if *t > limit {
+                                v.late.push(("longpoll/timeout/answered-later-than-deadline-plus-tick".into(), json!({"l": desc, "late_by_ms": t - limit, "limit": "deadline + 500 ms tick + 400 ms slack"})));
+                            } else {
+                                let what = match a { None => "NULL", Some(_) => "DATA" };
+                                let early = a.is_none() && *t < l.deadline - 20;
+                                if early {
+                                    v.diags.push("NULL answered before the deadline".into());
+                                }
+                                v.shapes.push(format!("timeout/{}/k{}/{}{}{}", what, nk, if fc.is_some() { "change-after-deadline" } else { "no-change" }, if pre.is_empty() { String::new() } else { format!("/pre[{}]", pre.join(",")) }, if ambiguous { "/change-at-deadline" } else { "" }));
+                            }
+                        }
+                        None => {
+                            if end_time > limit {
+                                v.late.push(("longpoll/timeout/not-answered-by-deadline-plus-tick".into(), json!({"l": desc, "observed_until": end_time, "limit": limit})));
+                            }
+                        }
+                    }
+                } else {
+                    // long deadline, nothing demanded; stale because of a temporary value / import?
+                    if l.answer.is_none() {
+                        let stale: Vec<&(usize, String, Held)> = l.items.iter().filter(|(k, m, _)| s.keys[*k].served_md5() != *m).collect();
+                        if !stale.is_empty() {
+                            v.diags.push(format!("listener left waiting on a stale md5 by [{}] (not a publish/remove, so not demanded by the property)", pre.join(",")));
+                        } else {
+                            v.shapes.push(format!("still-pending-and-current{}", if pre.is_empty() { "" } else { "/after-non-changing-events" }));
+                        }
+                    }
+                }
+            }
+        }
+    }
+    v
+}
+
+// ------------------------------------------------------------------------------------------------ permutation family
+fn permutations<T: Clone>(items: &[T], out: &mut Vec<Vec<T>>) {
+    fn rec<T: Clone>(cur: &mut Vec<T>, rest: &mut Vec<T>, out: &mut Vec<Vec<T>>) {
+        if rest.is_empty() {
+            out.push(cur.clone());
+            return;
+        }
+        for i in 0..rest.len() {
+            let x = rest.remove(i);
+            cur.push(x.clone());
+            rec(cur, rest, out);
+            cur.pop();
+            rest.insert(i, x);
+        }
+    }
+    rec(&mut vec![], &mut items.to_vec(), out);
+}
+
+fn gen_base(r: &mut StdRng, max_l: usize, max_k: usize, max_c: usize) -> Base {
+    // biased towards the largest size
+    let nk = r.gen_range(1..=max_k);
+    let nl = if r.gen_bool(0.6) { max_l } else { r.gen_range(1..=max_l) };
+    let nc = if r.gen_bool(0.6) { max_c } else { r.gen_range(1..=max_c) };
+    let init: Vec<bool> = (0..nk).map(|_| r.gen_bool(0.7)).collect();
+    let mut events = vec![];
+    for id in 0..nl {
+        let n_items = if nk == 1 { 1 } else { *[1usize, 1, 2, nk].choose(r).unwrap() };
+        let mut ks: Vec<usize> = (0..nk).collect();
+        ks.shuffle(r);
+        ks.truncate(n_items);
+        let items: Vec<(usize, Held)> = ks.into_iter().map(|k| (k, *[Held::Current, Held::Current, Held::Current, Held::OfInitial, Held::OfInitial, Held::Stale, Held::Empty].choose(r).unwrap())).collect();
+        events.push(Ev::Listen { id, items, timeout_ms: if r.gen_range(0..5) == 0 { -1 } else { 60_000 } });
+    }
+    for _ in 0..nc {
+        let kind = *[Change::PubNew, Change::PubNew, Change::PubNew, Change::PubSame, Change::Remove, Change::Remove, Change::Tmp, Change::ImportNew, Change::ImportSame].choose(r).unwrap();
+        events.push(Ev::Change { kind, key: r.gen_range(0..nk) });
+    }
+    Base { init, events }
+}
+
+/// hand-written bases: the orders named in the property text
+fn fixed_bases() -> Vec<Base> {
+    let l = |id: usize, items: Vec<(usize, Held)>| Ev::Listen { id, items, timeout_ms: 60_000 };
+    let c = |kind: Change, key: usize| Ev::Change { kind, key };
+    vec![
+        // listen / remove / publish on one key, two listeners
+        Base { init: vec![true], events: vec![l(0, vec![(0, Held::Current)]), l(1, vec![(0, Held::OfInitial)]), c(Change::Remove, 0), c(Change::PubNew, 0), c(Change::PubSame, 0)] },
+        // one listener holding several keys, another sharing one of them: the first key fires, the others stay registered
+        Base { init: vec![true, true, false], events: vec![l(0, vec![(0, Held::Current), (1, Held::Current), (2, Held::Current)]), l(1, vec![(1, Held::Current)]), l(2, vec![(2, Held::Empty), (0, Held::OfInitial)]), c(Change::PubNew, 0), c(Change::PubNew, 1), c(Change::PubNew, 2), c(Change::Remove, 1)] },
+        // temporary value then its publish (routed write) around registrations
+        Base { init: vec![true], events: vec![l(0, vec![(0, Held::Current)]), l(1, vec![(0, Held::OfInitial)]), l(2, vec![(0, Held::Current)]), c(Change::Tmp, 0), c(Change::PubSame, 0), c(Change::PubNew, 0)] },
+        // import around registrations
+        Base { init: vec![true, true], events: vec![l(0, vec![(0, Held::Current), (1, Held::Current)]), l(1, vec![(0, Held::OfInitial)]), c(Change::ImportNew, 0), c(Change::PubSame, 0), c(Change::PubNew, 1), c(Change::Remove, 0)] },
+        // absent keys: create, remove, create
+        Base { init: vec![false, false], events: vec![l(0, vec![(0, Held::Empty)]), l(1, vec![(0, Held::Current), (1, Held::Current)]), l(2, vec![(1, Held::Stale)]), c(Change::PubNew, 0), c(Change::Remove, 0), c(Change::PubNew, 0), c(Change::PubNew, 1)] },
+        // the same listener key set three times
+        Base { init: vec![true], events: vec![l(0, vec![(0, Held::Current)]), l(1, vec![(0, Held::Current)]), l(2, vec![(0, Held::Current)]), c(Change::PubNew, 0), c(Change::PubNew, 0), c(Change::Remove, 0), c(Change::PubSame, 0)] },
+    ]
+}
+
+async fn run_order(cfg: &Addr<ConfigActor>, uniq: String, base: &Base, order: &[Ev], rep: &mut Report, collect: bool) -> anyhow::Result<(Verdict, Vec<Value>)> {
+    let mut s = Sess::new(cfg.clone(), uniq, base.init.len());
+    for (k, present) in base.init.iter().enumerate() {
+        if *present {
+            s.init_key(k).await?;
+        }
+    }
+    for ev in order {
+        s.apply(ev).await?;
+    }
+    // cross-check of the bookkeeping against the actor
+    for k in 0..s.keys.len() {
+        let m = s.actor_md5(k).await?;
+        if m != s.keys[k].served_md5() {
+            rep.inconclusive.push(format!("harness bookkeeping differs from the actor for key k{}: {} vs {}", k, m, s.keys[k].served_md5()));
+        }
+    }
+    let v = judge(&s, false, 0);
+    let trace = if collect || !v.viol.is_empty() { s.trace.clone() } else { vec![] };
+    s.cleanup().await;
+    Ok((v, trace))
+}
+
+// ------------------------------------------------------------------------------------------------ timed family
+#[derive(Clone)]
+struct Timed {
+    nkeys: usize,
+    init: Vec<bool>,
+    /// (time offset ms, event)
+    events: Vec<(i64, Ev)>,
+}
+
+fn gen_timed(r: &mut StdRng, family: usize) -> Timed {
+    let l = |id: usize, items: Vec<(usize, Held)>, t: i64| Ev::Listen { id, items, timeout_ms: t };
+    let c = |kind: Change, key: usize| Ev::Change { kind, key };
+    let d = *[200i64, 300, 400, 600, 800].choose(r).unwrap();
+    match family % 9 {
+        0 => Timed { nkeys: 1, init: vec![true], events: vec![(0, l(0, vec![(0, Held::Current)], d))] },
+        1 => Timed { nkeys: 1, init: vec![true], events: vec![(0, l(0, vec![(0, Held::Current)], d)), (d - 120, c(*[Change::PubNew, Change::Remove].choose(r).unwrap(), 0))] },
+        2 => Timed { nkeys: 1, init: vec![true], events: vec![(0, l(0, vec![(0, Held::Current)], d)), (d + 150, c(Change::PubNew, 0))] },
+        3 => Timed { nkeys: 1, init: vec![true], events: vec![(0, l(0, vec![(0, Held::Current)], 200)), (0, l(1, vec![(0, Held::Current)], 800)), (500, c(Change::PubNew, 0))] },
+        4 => Timed { nkeys: 2, init: vec![true, true], events: vec![(0, l(0, vec![(0, Held::Current), (1, Held::Current)], d)), (50, c(Change::PubSame, 0)), (80, c(Change::Tmp, 1))] },
+        5 => Timed { nkeys: 1, init: vec![r.gen_bool(0.5)], events: vec![(0, l(0, vec![(0, Held::Stale)], d)), (0, l(1, vec![(0, Held::Current)], 0))] },
+        6 => {
+            // several listeners with the very same deadline value / registered in the same millisecond
+            let n = r.gen_range(2..6);
+            Timed { nkeys: 2, init: vec![true, false], events: (0..n).map(|i| (0, l(i, vec![(i % 2, Held::Current)], d))).collect() }
+        }
+        7 => Timed { nkeys: 2, init: vec![true, true], events: vec![(0, l(0, vec![(0, Held::Current), (1, Held::Current)], 800)), (0, l(1, vec![(1, Held::Current)], 300)), (150, c(Change::PubNew, 1)), (200, l(2, vec![(1, Held::Current)], 300)), (900, c(Change::Remove, 0))] },
+        _ => {
+            // random
+            let nk = r.gen_range(1..=3);
+            let nl = r.gen_range(1..=4);
+            let mut events = vec![];
+            let mut deadlines = vec![];
+            for id in 0..nl {
+                let at = *[0i64, 0, 100, 250].choose(r).unwrap();
+                let t = *[200i64, 400, 600, 800, 60_000].choose(r).unwrap();
+                let mut ks: Vec<usize> = (0..nk).collect();
+                ks.shuffle(r);
+                ks.truncate(r.gen_range(1..=nk));
+                deadlines.push(at + t);
+                events.push((at, l(id, ks.into_iter().map(|k| (k, *[Held::Current, Held::Current, Held::OfInitial, Held::Empty].choose(r).unwrap())).collect(), t)));
+            }
+            for _ in 0..r.gen_range(0..4) {
+                let mut at = r.gen_range(30..1300i64);
+                // keep changes away from the deadlines, the oracle has a margin of 60 ms around them
+                while deadlines.iter().any(|dl| (at - dl).abs() < 110) {
+                    at += 37;
+                }
+                events.push((at, c(*[Change::PubNew, Change::PubSame, Change::Remove, Change::Tmp, Change::ImportNew].choose(r).unwrap(), r.gen_range(0..nk))));
+            }
+            events.sort_by_key(|e| e.0);
+            Timed { nkeys: nk, init: (0..nk).map(|_| r.gen_bool(0.7)).collect(), events }
+        }
+    }
+}
+
+async fn run_timed(cfg: Addr<ConfigActor>, uniq: String, sc: Timed) -> anyhow::Result<(Verdict, Vec<Value>, Vec<Value>)> {
+    let mut s = Sess::new(cfg, uniq, sc.nkeys);
+    for (k, present) in sc.init.iter().enumerate() {
+        if *present {
+            s.init_key(k).await?;
+        }
+    }
+    let start = now_ms() as i64;
+    let mut idx = 0;
+    let mut horizon = start + 200;
+    loop {
+        let now = now_ms() as i64;
+        while idx < sc.events.len() && start + sc.events[idx].0 <= now {
+            s.apply(&sc.events[idx].1).await?;
+            idx += 1;
+        }
+        s.poll();
+        for l in &s.ls {
+            if l.deadline > 0 && l.deadline < start + 20_000 {
+                horizon = horizon.max(l.deadline + TICK_MS + SLACK_MS + 150);
+            }
+        }
+        let short_pending = s.ls.iter().any(|l| l.answer.is_none() && !l.dropped && l.deadline > 0 && l.deadline < start + 20_000);
+        if idx >= sc.events.len() && (!short_pending || now > horizon + 2500) {
+            break;
+        }
+        tokio::time::sleep(std::time::Duration::from_millis(10)).await;
+    }
+    let end = now_ms() as i64;
+    let v = judge(&s, true, end);
+    let trace = s.trace.clone();
+    let evs = sc.events.iter().map(|(t, e)| json!({"at_ms": t, "ev": e.to_json()})).collect();
+    s.cleanup().await;
+    Ok((v, trace, evs))
+}
+
+// ------------------------------------------------------------------------------------------------ driver
+fn absorb(rep: &mut Report, v: &Verdict) {
+    for s in &v.shapes {
+        rep.shape(s.clone());
+    }
+    for d in &v.diags {
+        rep.count(&format!("diag:{}", d), 1);
+    }
+}
+
+pub fn run(args: &Args) -> anyhow::Result<()> {
+    let seed = args.u64("seed", 1);
+    let shard = args.u64("shard", 0);
+    let n_bases = args.u64("bases", 6);
+    let n_sampled = args.u64("sampled", 2000);
+    let n_timed = args.u64("timed", 300);
+    let only_base = args.get("only-base").and_then(|s| s.parse::<u64>().ok());
+    let verbose = args.has("verbose");
+    let mut rep = Report::default();
+    let sys = actix_rt::System::new();
+    let r: anyhow::Result<()> = sys.block_on(async {
+        let mut r = rng(seed);
+        let mut cfg = ConfigActor::new().start();
+        let mut n_on_actor = 0u64;
+        let mut uniq = 0u64;
+        // ---------------- exhaustive permutations of small bases
+        let mut bases: Vec<(String, Base)> = vec![];
+        if let Some(bs) = only_base {
+            let mut rr = rng(bs);
+            bases.push((format!("seeded:{}", bs), gen_base(&mut rr, 3, 3, 4)));
+        } else {
+            let fixed = fixed_bases();
+            for (i, b) in fixed.into_iter().enumerate() {
+                // fixed bases are spread over the shards
+                if i as u64 % args.u64("shards", 1) == shard % args.u64("shards", 1) {
+                    bases.push((format!("fixed:{}", i), b));
+                }
+            }
+            for i in 0..n_bases {
+                let bs = seed.wrapping_mul(7919).wrapping_add(i);
+                let mut rr = rng(bs);
+                bases.push((format!("seeded:{}", bs), gen_base(&mut rr, 3, 3, 4)));
+            }
+        }
+        for (name, base) in &bases {
+            let mut orders = vec![];
+            permutations(&base.events, &mut orders);
+            rep.count("bases_enumerated", 1);
+            rep.count("orders_enumerated", orders.len() as u64);
+            for (oi, order) in orders.iter().enumerate() {
+                uniq += 1;
+                n_on_actor += 1;
+                if n_on_actor % 500 == 0 {
+                    cfg = ConfigActor::new().start();
+                }
+                rep.evaluations += 1;
+                let (v, trace) = run_order(&cfg, format!("{}x{}", shard, uniq), base, order, &mut rep, false).await?;
+                absorb(&mut rep, &v);
+                for (sig, d) in v.viol {
+                    if verbose && !rep.violations.contains_key(&sig) {
+                        eprintln!("VIOLATION {} base={} order#{}\n{}", sig, name, oi, serde_json::to_string_pretty(&json!({"trace": trace, "detail": d})).unwrap_or_default());
+                    }
+                    rep.violation(sig, json!({"family": "all permutations of a small base", "base": name, "initially_present": base.init, "order": order.iter().map(|e| e.to_json()).collect::<Vec<_>>(), "trace": trace, "detail": d,
+                        "replay": if name.starts_with("seeded:") { format!("vh c10 --only-base {} --verbose", &name[7..]) } else { "vh c10 --shards 1 --bases 0 --sampled 0 --timed 0 --verbose".to_string() }}));
+                }
+                if rep.samples.len() < 2 && oi == 7 {
+                    let (_, tr) = run_order(&cfg, format!("{}s{}", shard, uniq), base, order, &mut rep, true).await?;
+                    rep.sample(json!({"family": "permutation", "base": name, "trace": tr, "verdict": "every listener answered as the oracle demands"}), 2);
+                }
+            }
+        }
+        // ---------------- sampled larger scenarios
+        if only_base.is_none() {
+            for _ in 0..n_sampled {
+                let base = gen_base(&mut r, 6, 3, 9);
+                let mut order = base.events.clone();
+                order.shuffle(&mut r);
+                uniq += 1;
+                n_on_actor += 1;
+                if n_on_actor % 500 == 0 {
+                    cfg = ConfigActor::new().start();
+                }
+                rep.evaluations += 1;
+                rep.count("orders_sampled", 1);
+                let (v, trace) = run_order(&cfg, format!("{}y{}", shard, uniq), &base, &order, &mut rep, false).await?;
+                absorb(&mut rep, &v);
+                for (sig, d) in v.viol {
+                    rep.violation(sig, json!({"family": "sampled larger scenario", "initially_present": base.init, "order": order.iter().map(|e| e.to_json()).collect::<Vec<_>>(), "trace": trace, "detail": d}));
+                }
+            }
+        }
+        // ---------------- real-time family (short deadlines, the actor's own 500 ms tick)
+        if only_base.is_none() && n_timed > 0 {
+            let batch = 150usize;
+            let mut done = 0u64;
+            let mut confirmed: BTreeSet<String> = BTreeSet::new();
+            let mut rerun_budget = 4;
+            let mut fam = 0usize;
+            while done < n_timed {
+                let cfg_t = ConfigActor::new().start();
+                let n = batch.min((n_timed - done) as usize);
+                let mut futs = vec![];
+                let mut scs = vec![];
+                for _ in 0..n {
+                    let sc = gen_timed(&mut r, fam);
+                    fam += 1;
+                    uniq += 1;
+                    scs.push(sc.clone());
+                    futs.push(run_timed(cfg_t.clone(), format!("{}t{}", shard, uniq), sc));
+                }
+                let results = futures_util::future::join_all(futs).await;
+                for (i, res) in results.into_iter().enumerate() {
+                    let (v, trace, evs) = res?;
+                    rep.evaluations += 1;
+                    rep.count("timed_scenarios", 1);
+                    absorb(&mut rep, &v);
+                    for (sig, d) in v.viol {
+                        rep.violation(sig, json!({"family": "real-time scenario", "events": evs, "trace": trace, "detail": d}));
+                    }
+                    if !v.late.is_empty() {
+                        // a late answer counts only if it is reproduced three times in a row on a quiet actor; at most
+                        // `rerun_budget` scenarios per process are re-run, a confirmed signature is not re-run again
+                        let sig = v.late[0].0.clone();
+                        if confirmed.contains(&sig) {
+                            rep.violation(sig, json!({"family": "real-time scenario", "events": evs}));
+                        } else if rerun_budget == 0 {
+                            rep.count("late_answer_not_rerun", 1);
+                        } else {
+                            rerun_budget -= 1;
+                            let mut again = 0;
+                            let mut last = None;
+                            for rep_i in 0..3 {
+                                uniq += 1;
+                                let solo = ConfigActor::new().start();
+                                let (v2, tr2, _) = run_timed(solo, format!("{}r{}-{}", shard, uniq, rep_i), scs[i].clone()).await?;
+                                if let Some(l2) = v2.late.iter().find(|(s2, _)| *s2 == sig) {
+                                    again += 1;
+                                    last = Some((l2.1.clone(), tr2));
+                                } else {
+                                    break;
+                                }
+                            }
+                            if again == 3 {
+                                let (d, tr) = last.unwrap();
+                                confirmed.insert(sig.clone());
+                                rep.violation(sig, json!({"family": "real-time scenario", "events": evs, "trace": tr, "detail": d, "reproduced": "3 of 3 solo re-runs"}));
+                            } else {
+                                rep.count("late_answer_not_reproduced", 1);
+                                rep.inconclusive.push(format!("late long-poll answer not reproduced ({} of 3): {}", again, v.late[0].1));
+                            }
+                        }
+                    }
+                    if rep.samples.len() < 4 && i == 3 {
+                        rep.sample(json!({"family": "real-time", "events": evs, "trace": trace, "verdict": "answered inside the demanded window"}), 4);
+                    }
+                }
+                done += n as u64;
+            }
+        }
+        Ok(())
+    });
+    r?;
+    rep.write(args)?;
+    std::process::exit(0);
 }
